@@ -1,0 +1,119 @@
+//go:build verif
+
+package s2
+
+import "github.com/golang/geo/s1"
+
+// This file is compiled only with the build tag "verif". It exports thin
+// read-only wrappers needed by the closest/furthest edge query harness
+// (property C08). It adds no behaviour.
+
+// VerifEdgeQueryRanOptimized reports whether the optimized (priority queue)
+// search has run at least once on this query object: the index iterator of
+// the query is created by initQueue, i.e. only on the optimized path.
+func VerifEdgeQueryRanOptimized(e *EdgeQuery) bool { return e.iter != nil }
+
+// VerifEdgeQueryIndexCovering returns a copy of the cached top-level covering
+// of the index (empty until the optimized path has run) together with a flag
+// per cell telling whether a ShapeIndexCell pointer is cached for it.
+func VerifEdgeQueryIndexCovering(e *EdgeQuery) (cells []CellID, isIndexCell []bool) {
+	cells = append(cells, e.indexCovering...)
+	for _, c := range e.indexCells {
+		isIndexCell = append(isIndexCell, c != nil)
+	}
+	return
+}
+
+// VerifEdgeQueryInitCovering runs initCovering on a fresh query object for the
+// index (the same call initQueue makes on the first optimized query) and
+// returns the covering.
+func VerifEdgeQueryInitCovering(index *ShapeIndex) (cells []CellID, isIndexCell []bool) {
+	e := NewClosestEdgeQuery(index, nil)
+	e.iter = NewShapeIndexIterator(index)
+	e.initCovering()
+	return VerifEdgeQueryIndexCovering(e)
+}
+
+// VerifEdgeQueryCounts reads the cached edge count bookkeeping that decides
+// between the brute force and the optimized path.
+func VerifEdgeQueryCounts(e *EdgeQuery) (numEdges, numEdgesLimit int) {
+	return e.indexNumEdges, e.indexNumEdgesLimit
+}
+
+// VerifTargetInnerRanOptimized reports, for shape index targets, whether the
+// target's own query ran the optimized path (false for other target types).
+func VerifTargetInnerRanOptimized(t distanceTarget) bool {
+	switch m := t.(type) {
+	case *MinDistanceToShapeIndexTarget:
+		return m.query.iter != nil
+	case *MaxDistanceToShapeIndexTarget:
+		return m.query.iter != nil
+	}
+	return false
+}
+
+// VerifTargetCapBound exposes distanceTarget.capBound.
+func VerifTargetCapBound(t distanceTarget) Cap { return t.capBound() }
+
+// VerifTargetSetInner forwards the include-interiors / brute-force settings to
+// the inner query of a shape index target (setIncludeInteriors, setUseBruteForce).
+func VerifTargetSetInner(t distanceTarget, includeInteriors, useBruteForce bool) {
+	switch m := t.(type) {
+	case *MinDistanceToShapeIndexTarget:
+		m.setIncludeInteriors(includeInteriors)
+		m.setUseBruteForce(useBruteForce)
+	case *MaxDistanceToShapeIndexTarget:
+		m.setIncludeInteriors(includeInteriors)
+		m.setUseBruteForce(useBruteForce)
+	}
+}
+
+// VerifIndexCellIDs lists the cell ids of the index through its iterator.
+func VerifIndexCellIDs(index *ShapeIndex) []CellID {
+	var out []CellID
+	for it := index.Iterator(); !it.Done(); it.Next() {
+		out = append(out, it.CellID())
+	}
+	return out
+}
+
+// VerifCoveringOfCells runs initCovering over a bare sorted cell-id list (an
+// iterator whose index consists of empty cells with those ids).
+func VerifCoveringOfCells(cells []CellID) (out []CellID, isIndexCell []bool) {
+	idx := NewShapeIndex()
+	for _, c := range cells {
+		idx.cellMap[c] = &ShapeIndexCell{}
+	}
+	idx.cells = append([]CellID(nil), cells...)
+	e := NewClosestEdgeQuery(idx, nil)
+	e.initCovering()
+	return VerifEdgeQueryIndexCovering(e)
+}
+
+// VerifTargetEdgeDistance calls the target's own updateDistanceToEdge for one
+// edge starting from the target's infinite distance.
+func VerifTargetEdgeDistance(t distanceTarget, e Edge) (s1.ChordAngle, bool) {
+	d, ok := t.updateDistanceToEdge(e, t.distance().infinity())
+	return d.chordAngle(), ok
+}
+
+// VerifTargetContainingShapes lists the ids of the shapes reported by the
+// target's visitContainingShapes (never cut short).
+func VerifTargetContainingShapes(t distanceTarget, index *ShapeIndex) []int32 {
+	seen := map[int32]bool{}
+	var out []int32
+	t.visitContainingShapes(index, func(containingShape Shape, targetPoint Point) bool {
+		id := index.idForShape(containingShape)
+		if !seen[id] {
+			seen[id] = true
+			out = append(out, id)
+		}
+		return true
+	})
+	return out
+}
+
+// VerifDistanceSentinels returns zero(), infinity() of the target's distance type.
+func VerifDistanceSentinels(t distanceTarget) (zero, infinity s1.ChordAngle) {
+	return t.distance().zero().chordAngle(), t.distance().infinity().chordAngle()
+}
